@@ -64,14 +64,16 @@ structure Config where
   the lock back): its "already closed / neither readable nor writable" outcomes are discarded there -/
   mustGive : List String := []
 
-abbrev Lock := Nat × Int     -- (rank class, depth); depth matters for class `dirClass` only
+abbrev Lock := Nat × Nat     -- (rank class, depth); depth matters for class `dirClass` only; depths are offsets from `baseDepth`
+/-- depth given to the receiver of the function a check starts from (so that walking up never underflows; Nat because the kernel evaluates Nat arithmetic natively) -/
+def baseDepth : Nat := 1000
 def dirClass : Nat := 2
 
 def lockLt (a b : Lock) : Bool := a.1 < b.1 || (a.1 == b.1 && a.1 == dirClass && a.2 < b.2)
 
 /-- walk a `who` path from an object of kind `k` at depth `d` (depth of a file/descriptor = depth of the
 directory that contains the file; of the root object = -1) to an object of kind `target` -/
-def move : Kind → Int → List Step → Kind → Option Int
+def move : Kind → Nat → List Step → Kind → Option Nat
   | k, d, [], target => if k == target then some d else none
   | .fd, d, .file :: r, target => move .file d r target
   | .file, d, .up :: r, target => if r.isEmpty && target == .root then some (d - 1) else move .dir d r target
@@ -105,7 +107,7 @@ def noDeep (held : List Lock) : Bool := held.all fun h => h.1 < dirClass
 
 structure Frame where
   kind : Kind
-  depth : Int
+  depth : Nat
   fn : Nat := 0     -- the function whose body is being executed (for the allow-list of the guarded-field rule)
 
 /-- the table the checker runs on: everything by index (strings are slow in the kernel) -/
@@ -148,16 +150,16 @@ def resolve (t : Tbl) (fr : Frame) (held : List Lock) (cls : Nat) (who : Who) : 
 
 /-- recursion cut-off key: callee, the held lock classes, and — all that matters for the rank comparisons and
 for `noDeep` — the deepest held directory lock relative to the callee -/
-def cutKey (fn : Nat) (held : List Lock) (depth : Int) : Nat × List (Nat × Int) :=
-  let dirs := (held.filter fun h => h.1 == dirClass).map fun h => h.2 - depth
-  let top : List (Nat × Int) := match dirs with
+def cutKey (fn : Nat) (held : List Lock) (depth : Nat) : Nat × List (Nat × Nat) :=
+  let dirs := (held.filter fun h => h.1 == dirClass).map fun h => h.2 + baseDepth - depth
+  let top : List (Nat × Nat) := match dirs with
     | [] => []
     | d :: ds => [(dirClass, ds.foldl max d)]
-  (fn, ((held.filter fun h => h.1 != dirClass).map fun h => (h.1, (0 : Int))).eraseDups ++ top)
+  (fn, ((held.filter fun h => h.1 != dirClass).map fun h => (h.1, (0 : Nat))).eraseDups ++ top)
 
 mutual
 /-- execute an event list from one state -/
-def execList (t : Tbl) : Nat → Frame → List (Nat × List (Nat × Int)) → List Ev → St → Res
+def execList (t : Tbl) : Nat → Frame → List (Nat × List (Nat × Nat)) → List Ev → St → Res
   | 0, _, _, _, _ => Res.bad
   | _ + 1, _, _, [], st => ⟨true, [st], []⟩
   | fuel + 1, fr, stack, e :: es, st =>
@@ -166,7 +168,7 @@ def execList (t : Tbl) : Nat → Frame → List (Nat × List (Nat × Int)) → L
     r.cont.foldl (fun (acc : Res) c => acc.merge (execList t fuel fr stack es c)) (⟨true, [], r.rets⟩ : Res)
 
 /-- run the deferred blocks of a returning state (most recent first); result states have no defers -/
-def runDefers (t : Tbl) : Nat → Frame → List (Nat × List (Nat × Int)) → St → Res
+def runDefers (t : Tbl) : Nat → Frame → List (Nat × List (Nat × Nat)) → St → Res
   | 0, _, _, _ => Res.bad
   | fuel + 1, fr, stack, st =>
     match st.defers with
@@ -179,7 +181,7 @@ def runDefers (t : Tbl) : Nat → Frame → List (Nat × List (Nat × Int)) → 
         (fun (acc : Res) c => acc.merge (runDefers t fuel fr stack { held := c.held, wheld := c.wheld, defers := ds, retErr := st.retErr })) (⟨true, [], []⟩ : Res)
 
 /-- call function `fn` positioned at `cfr` from state `st`; the caller continues with the callee's final `held` -/
-def execCall (t : Tbl) : Nat → List (Nat × List (Nat × Int)) → Nat → Frame → St → Res
+def execCall (t : Tbl) : Nat → List (Nat × List (Nat × Nat)) → Nat → Frame → St → Res
   | 0, _, _, _, _ => Res.bad
   | fuel + 1, stack, fn, cfr, st =>
     let key := cutKey fn st.held cfr.depth
@@ -201,7 +203,7 @@ def execCall (t : Tbl) : Nat → List (Nat × List (Nat × Int)) → Nat → Fra
     if !okDelta then Res.bad else
     ⟨true, fin.cont.foldr (fun c acc => addSt { held := c.held, wheld := c.wheld, defers := st.defers, lastErr := c.retErr, retErr := st.retErr } acc) [], []⟩
 
-def execEv (t : Tbl) : Nat → Frame → List (Nat × List (Nat × Int)) → Ev → St → Res
+def execEv (t : Tbl) : Nat → Frame → List (Nat × List (Nat × Nat)) → Ev → St → Res
   | 0, _, _, _, _ => Res.bad
   | fuel + 1, fr, stack, ev, st =>
     match ev with
@@ -227,14 +229,14 @@ def execEv (t : Tbl) : Nat → Frame → List (Nat × List (Nat × Int)) → Ev 
       let ck := t.kinds.getD fn .other
       match who with
       | some path =>
-        if ck == .other then (if noDeep st.held then execCall t fuel stack fn ⟨ck, 0, fn⟩ st else
+        if ck == .other then (if noDeep st.held then execCall t fuel stack fn ⟨ck, baseDepth, fn⟩ st else
           -- a plain function / unpositioned receiver called under a directory or node lock: tolerated only if it takes no lock
           execCallLockFree t fuel stack fn st)
         else match move fr.kind fr.depth path ck with
           | some d => execCall t fuel stack fn ⟨ck, d, fn⟩ st
           | none => Res.bad
       | none =>
-        if noDeep st.held then execCall t fuel stack fn ⟨ck, 0, fn⟩ st else execCallLockFree t fuel stack fn st
+        if noDeep st.held then execCall t fuel stack fn ⟨ck, baseDepth, fn⟩ st else execCallLockFree t fuel stack fn st
     | .spawn _ _ => ⟨true, [st], []⟩
     | .alt bs => bs.foldl (fun (acc : Res) b => acc.merge (execList t fuel fr stack b st)) (⟨true, [], []⟩ : Res)
     | .loop body =>
@@ -260,7 +262,7 @@ def execEv (t : Tbl) : Nat → Frame → List (Nat × List (Nat × Int)) → Ev 
     | .unknown => Res.bad
 
 /-- a callee whose position is unknown, entered while a directory / node lock is held, must not touch any lock -/
-def execCallLockFree (t : Tbl) : Nat → List (Nat × List (Nat × Int)) → Nat → St → Res
+def execCallLockFree (t : Tbl) : Nat → List (Nat × List (Nat × Nat)) → Nat → St → Res
   | 0, _, _, _ => Res.bad
   | fuel + 1, stack, fn, st =>
     if lockFree t fuel [] (t.facts.getD fn [.unknown]) then ⟨true, [{ st with lastErr := none }], []⟩ else Res.bad
@@ -281,7 +283,7 @@ end
 
 /-- check function `fn` entered holding `entry` -/
 def checkFrom (t : Tbl) (fuel : Nat) (entry : List Lock) (fn : Nat) : Bool :=
-  let fr : Frame := ⟨t.kinds.getD fn .other, 0, fn⟩
+  let fr : Frame := ⟨t.kinds.getD fn .other, baseDepth, fn⟩
   (execCall t fuel [] fn fr { held := entry, defers := [] }).ok
 
 end LockFacts
